@@ -69,7 +69,34 @@ type Case struct {
 	Stamp  string `json:"stamp"`
 	SKID   string `json:"skid"` // the ids the specification derives from the documentation (used by the reference writer)
 	IKID   string `json:"ikid"`
+	// frame: the KMS of this case appends that many bytes of its own to the ct|tag|nonce envelope of the system key (what a KMS
+	// returns is opaque to the stored format - AWS KMS envelopes are JSON of any length). 0..2 walks through all base64 padding
+	// classes of the system key row. Always 0 on the grpc channel (the sidecar builds its own static KMS).
+	frame int
 }
+
+// framedKMS is the SDK's static KMS plus a trailer of n bytes.
+type framedKMS struct {
+	appencryption.KeyManagementService
+	n int
+}
+
+func (k framedKMS) EncryptKey(ctx context.Context, key []byte) ([]byte, error) {
+	b, err := k.KeyManagementService.EncryptKey(ctx, key)
+	if err != nil {
+		return nil, err
+	}
+	return append(b, frameBytes(k.n)...), nil
+}
+
+func (k framedKMS) DecryptKey(ctx context.Context, blob []byte) ([]byte, error) {
+	if len(blob) < k.n || !bytes.Equal(blob[len(blob)-k.n:], frameBytes(k.n)) {
+		return nil, fmt.Errorf("kms: trailer of %d bytes missing or altered (blob of %d bytes)", k.n, len(blob))
+	}
+	return k.KeyManagementService.DecryptKey(ctx, blob[:len(blob)-k.n])
+}
+
+func frameBytes(n int) []byte { return []byte{0xa5, 0x5a}[:n] }
 
 // Event is what was observed for one case. Every field is always present so that the trace specification can name it.
 type Event struct {
@@ -106,6 +133,7 @@ type Event struct {
 	DRRParentCreate string `json:"drr_parent_created"`
 	DRKCreated      string `json:"drk_created"`
 	// blob lengths (decoded bytes)
+	KMSFrame   int `json:"kms_frame"` // bytes the case's KMS appends to the system key envelope
 	SKBlobLen  int `json:"sk_blob_len"`
 	IKBlobLen  int `json:"ik_blob_len"`
 	DRKBlobLen int `json:"drk_blob_len"`
@@ -390,7 +418,7 @@ func withSession(c *Case, ms appencryption.Metastore, f func(s *appencryption.Se
 			return err
 		}
 		defer k.Close()
-		factory := appencryption.NewSessionFactory(&appencryption.Config{Service: c.Svc, Product: c.Prod, Policy: appencryption.NewCryptoPolicy()}, ms, k, crypto)
+		factory := appencryption.NewSessionFactory(&appencryption.Config{Service: c.Svc, Product: c.Prod, Policy: appencryption.NewCryptoPolicy()}, ms, framedKMS{k, c.frame}, crypto)
 		defer factory.Close()
 		s, err := factory.GetSession(c.Part)
 		if err != nil {
@@ -593,7 +621,11 @@ func readBack(c *Case, ev *Event, wire []byte, rows []rowObs, payload []byte) {
 		}
 	}
 	if ev.IKFound && ev.SKFound {
-		w := refcodec.Decrypt([]byte(masterKey), sk.Rec.Key, ik.Rec.Key, d.Key.Key, d.Data)
+		skBlob := sk.Rec.Key
+		if n := c.frame; n > 0 && len(skBlob) >= n && bytes.Equal(skBlob[len(skBlob)-n:], frameBytes(n)) {
+			skBlob = skBlob[:len(skBlob)-n] // the reference's KMS takes its trailer off
+		}
+		w := refcodec.Decrypt([]byte(masterKey), skBlob, ik.Rec.Key, d.Key.Key, d.Data)
 		ev.OpenSK, ev.OpenIK, ev.OpenDRK, ev.OpenData = w.OpenSK, w.OpenIK, w.OpenDRK, w.OpenData
 		ev.SKLen, ev.IKLen, ev.DRKLen = w.SKLen, w.IKLen, w.DRKLen
 		ev.PayloadMatch = w.OpenData && bytes.Equal(w.Payload, payload)
@@ -644,6 +676,11 @@ func delta(stamp string, now int64) int {
 func (e *env) runCase(c *Case, id int) Event {
 	ev := Event{E: "case", Run: id, ID: id, Ch: c.Ch, Dir: c.Dir, Len: c.Len, Part: c.Part, Svc: c.Svc, Prod: c.Prod, Region: c.Region,
 		SKRev: c.SKRev, IKRev: c.IKRev, Stamp: c.Stamp, SKDoc: []string{}, IKDoc: []string{}, DRRDoc: []string{}, Mismatch: []string{}}
+	c.frame = 0
+	if c.Ch != "grpc" {
+		c.frame = id % 3
+	}
+	ev.KMSFrame = c.frame
 	t0, err := strconv.ParseInt(c.Stamp, 10, 64)
 	if err != nil {
 		ev.Err = "bad stamp"
@@ -717,7 +754,7 @@ func (e *env) runCase(c *Case, id int) Event {
 			}
 			return b
 		}
-		skRec := refcodec.KeyRecord{Created: skC, Key: seal([]byte(masterKey), skKey), Revoked: c.SKRev}
+		skRec := refcodec.KeyRecord{Created: skC, Key: append(seal([]byte(masterKey), skKey), frameBytes(c.frame)...), Revoked: c.SKRev}
 		ikRec := refcodec.KeyRecord{Created: ikC, Key: seal(skKey, ikKey), HasParent: true, ParentID: c.SKID, ParentCreated: skC, Revoked: c.IKRev}
 		drr := refcodec.DataRow{Key: refcodec.KeyRecord{Created: drkC, Key: seal(ikKey, drkKey), HasParent: true, ParentID: c.IKID, ParentCreated: ikC},
 			Data: seal(drkKey, payload)}
